@@ -66,6 +66,39 @@ func cmdFaultsGrpc(args []string) error {
 	var allOps, allObs []string // the Set is shared by the whole run: one long history
 	var descs []fdesc
 	streams, maxStreams := 0, *n/2
+	// a stream opened while no fault is configured: faults injected later must still apply to
+	// the messages it receives afterwards. Opening it runs the stream-open check, the general
+	// receive check, the check on the first message, and the general receive check for the
+	// next message -- all against the empty set.
+	earlySub := subs[0]
+	// (the subscription must exist for the stream to stay open; these two calls run against
+	// the empty fault set, where every check passes and nothing changes)
+	if _, err := e.Pub.CreateTopic(ctx, &pubsubpb.Topic{Name: names[0]}); err != nil {
+		return err
+	}
+	if _, err := e.Sub.CreateSubscription(ctx, &pubsubpb.Subscription{Name: earlySub, Topic: names[0]}); err != nil {
+		return err
+	}
+	ectx, ecancel := context.WithCancel(ctx)
+	defer ecancel()
+	early, eerr := e.Sub.StreamingPull(ectx)
+	if eerr == nil {
+		eerr = early.Send(&pubsubpb.StreamingPullRequest{Subscription: earlySub, StreamAckDeadlineSeconds: 10})
+	}
+	if eerr != nil {
+		return fmt.Errorf("early stream: %w", eerr)
+	}
+	time.Sleep(150 * time.Millisecond)
+	first := &pubsubpb.StreamingPullRequest{Subscription: earlySub, StreamAckDeadlineSeconds: 10}
+	for _, c := range []string{
+		fmt.Sprintf("SCheck %s %s", coqStr("StreamingPull"), coqMap(map[string]string{subSvc: "StreamingPull"})),
+		fmt.Sprintf("SCheck %s %s", coqStr("StreamingPull:RecvMsg"), coqMap(nil)),
+		fmt.Sprintf("SCheck %s %s", coqStr("StreamingPull:RecvMsg"), coqMap(expectedParams(subSvc, "StreamingPull", first))),
+	} {
+		allOps = append(allOps, c)
+		allObs = append(allObs, "OCheck None")
+		calls++
+	}
 	for sc := 0; sc < *n; sc++ {
 		// add 1-2 descriptions
 		for k := 0; k < 1+r.Intn(2); k++ {
@@ -194,6 +227,53 @@ func cmdFaultsGrpc(args []string) error {
 			}
 			allObs = append(allObs, o)
 		}
+	}
+	// now a fault for received messages, and a second message on the early stream
+	{
+		d := fdesc{Op: "StreamingPull:RecvMsg", Params: map[string]string{"clientId": "late"}, Count: 1}
+		idx := nd
+		nd++
+		descs = append(descs, d)
+		e.Faults.Add(faults.Description{Operation: d.Op, Parameters: d.Params, Count: d.Count, FaultDescription: fmt.Sprint(idx),
+			OnFault: func(dd faults.Description, _ faults.Parameters) error {
+				return status.Errorf(codes.DataLoss, "F:%d:%d", idx, dd.Count)
+			}})
+		allOps = append(allOps, "SAdd "+coqDesc(d))
+		allObs = append(allObs, "OUnit")
+		second := &pubsubpb.StreamingPullRequest{ClientId: "late"}
+		rerr := early.Send(second)
+		done := make(chan error, 1)
+		go func() {
+			for {
+				if _, err := early.Recv(); err != nil {
+					done <- err
+					return
+				}
+			}
+		}()
+		select {
+		case rerr = <-done:
+		case <-time.After(1500 * time.Millisecond):
+			rerr = nil
+		}
+		if os.Getenv("VERIF_DEBUG") != "" {
+			fmt.Fprintln(os.Stderr, "early stream second message ->", rerr)
+		}
+		calls++
+		allOps = append(allOps, fmt.Sprintf("SCheck %s %s", coqStr("StreamingPull:RecvMsg"), coqMap(expectedParams(subSvc, "StreamingPull", second))))
+		o := "OCheck None"
+		if st, ok := status.FromError(rerr); ok && rerr != nil && st.Code() == codes.DataLoss {
+			msg := st.Message()
+			if i := strings.LastIndex(msg, "F:"); i >= 0 {
+				msg = msg[i:]
+			}
+			var fi, rem int64
+			if n, _ := fmt.Sscanf(msg, "F:%d:%d", &fi, &rem); n == 2 {
+				o = fmt.Sprintf("OCheck (Some (%d%%nat, %s))", fi, coqZ(rem))
+				failed++
+			}
+		}
+		allObs = append(allObs, o)
 	}
 	c := fmt.Sprintf("(0%%nat, ([%s], [%s]))", strings.Join(allOps, "; "), strings.Join(allObs, "; "))
 	samples = append(samples, c[:600])
